@@ -250,21 +250,24 @@ def check(case):
     return {'nontrivial': n >= 3 and (kappa_max >= 1e3 or n >= 1000 or mixed), 'labels': labels}
 
 
-FLOATS = st.one_of(
+FLOAT_KINDS = [
     st.floats(min_value=-1e150, max_value=1e150, allow_nan=False, allow_infinity=False),
     st.floats(min_value=-1e6, max_value=1e6, allow_nan=False, allow_infinity=False),
     st.integers(-10 ** 6, 10 ** 6).map(float),
     st.integers(-1000, 1000),
     st.integers(2 ** 60, 2 ** 62),                      # e.g. epoch nanoseconds: sums leave the 64-bit range
     st.integers(1, 9).map(lambda k: 1.0 + k * 1e-10),   # spreads far below sqrt(eps)
-)
+]
+FLOATS = st.one_of(*FLOAT_KINDS)
 
 
 @st.composite
 def case_gen(draw, long_max):
     kind = draw(st.sampled_from(['short', 'short', 'short', 'long']))
     if kind == 'short':
-        data = {'kind': 'short', 'xs': draw(st.lists(FLOATS, min_size=draw(st.sampled_from([0, 1, 2, 3])), max_size=12)),
+        # half of the lists are homogeneous (all items of one kind: all ints, all 62-bit ints, all tiny spreads ...)
+        elems = draw(st.sampled_from([FLOATS] * len(FLOAT_KINDS) + FLOAT_KINDS))
+        data = {'kind': 'short', 'xs': draw(st.lists(elems, min_size=draw(st.sampled_from([0, 1, 2, 3, 8])), max_size=12)),
                 'numpy': draw(st.integers(0, 3)) == 0}
     else:
         data = {'kind': 'long', 'n': draw(st.sampled_from([10, 100, 300, long_max // 2, long_max])), 'off_m': draw(st.sampled_from([0.0, 1.0, -3.0, 7.25])),
